@@ -267,18 +267,19 @@ def r14_4(run):
             run.ob('R14.4', rf, c, 'deprecated remove_from_tor sends DEL_ONION <address without .onion>', ok, slot='deprecated-del', message='remove_from_tor sends %s' % shape_text(sh))
 
 
+def _int_may_raise(node):
+    # int(<text>) is how the validators tell numbers from other forms: its ValueError leg is ordinary control flow here
+    for a in walk_local(node, descend_root=False) if not isinstance(node, FUNC_TYPES) else []:
+        if isinstance(a, ast.Call) and dotted(a.func) == 'int':
+            return ('ValueError',)
+    return None
+
+
 def r14_6(run):
     """port mappings correspond exactly to the requested ports: in _validate_ports every requested entry that is not refused
     yields exactly one processed mapping (path enumeration over one loop iteration)"""
     u = run.idx.unit(MOD + '._validate_ports')
-
-    def may_raise(node):
-        # int(<text>) is how the function tells numbers from other forms: its ValueError leg is ordinary control flow here
-        for a in walk_local(node, descend_root=False) if not isinstance(node, FUNC_TYPES) else []:
-            if isinstance(a, ast.Call) and dotted(a.func) == 'int':
-                return ('ValueError',)
-        return None
-    g = cfg_of(u, may_raise=may_raise)
+    g = cfg_of(u, may_raise=_int_may_raise)
     loops = [n for n in g.live if n.kind == 'iter' and isinstance(n.ast, ast.For) and dotted(n.ast.iter) == u.params[1]]
     run.floor('R14.6', 'loops over the requested ports', len(loops), 1)
     rn = returned_names(u)
@@ -296,6 +297,40 @@ def r14_6(run):
                    message='_validate_ports accepts an entry but adds %d mappings for it on the path %s: the ADD_ONION lacks (or repeats) a requested Port=' % (na, p_.describe(8)),
                    path=p_.describe(10))
     run.floor('R14.6', 'accepting paths through one loop iteration', k, 4)
+
+
+def r14_7(run):
+    """(a) AuthBasic client entries: a (name, token) pair is recognised by its type, never by trying to unpack it - a str is a
+    sequence too, so a two-character bare name would be split into a name and a token;
+    (b) sibling agreement of the two port validators: wherever a target is *refused* for not being a local numeric address,
+    the name localhost is exempt (the string form accepts "80 localhost:8080"; the pair form must not refuse it)."""
+    ac = run.idx.cls('_AuthCommon', MOD)
+    init = run.idx.find_method(ac, '__init__')
+    g = cfg_of(init)
+    k = 0
+    for n in g.real_nodes():
+        if n.kind == 'stmt' and isinstance(n.ast, ast.Assign) and isinstance(n.ast.targets[0], (ast.Tuple, ast.List)) and isinstance(n.ast.value, ast.Name):
+            k += 1
+            v = n.ast.value.id
+            gd = g.guarded_by(n, lambda t: isinstance(t, ast.Call) and dotted(t.func) == 'isinstance' and len(t.args) == 2 and dotted(t.args[0]) == v)
+            okt = any(lab == 'T' and not any(dotted(x) in ('str', 'bytes') for x in ast.walk(t.ast.args[1])) for t, lab in gd)
+            run.ob('R14.7', init, n.ast, 'a client entry is split into (name, token) only when it is a tuple/list', okt, slot='client-pair-by-type',
+                   message='_AuthCommon.__init__ unpacks %s without an isinstance test: the bare client name "yz" becomes client "y" with token "z" (ClientAuth=y:z)' % v)
+    run.floor('R14.7', 'client-entry destructurings', k, 1)
+    for uname in ('_validate_ports', '_validate_single_port_string'):
+        u = run.idx.unit(MOD + '.' + uname)
+        gu = cfg_of(u, may_raise=_int_may_raise)
+        for r in [n for n in gu.real_nodes() if n.kind == 'stmt' and isinstance(n.ast, ast.Raise)]:
+            gd = gu.guarded_by(r, lambda t: isinstance(t, ast.Call) and dotted(t.func) == '_is_non_public_numeric_address')
+            if not any(lab == 'F' for _, lab in gd):
+                continue
+            ipv = [dotted(t.ast.args[0]) for t, lab in gd if lab == 'F'][0]
+            ex = gu.guarded_by(r, lambda t: isinstance(t, ast.Compare) and dotted(t.left) == ipv and const(t.comparators[0]) == 'localhost' and isinstance(t.ops[0], (ast.NotEq, ast.Eq)))
+            oke = any((lab == 'T') == isinstance(t.ast.ops[0], ast.NotEq) for t, lab in ex)
+            run.ob('R14.7', u, r.ast, 'a non-local target is refused only if it is not "localhost"', oke, slot='localhost-exempt:%s' % uname,
+                   message='%s refuses every target that is not a local numeric address, "localhost" included, while the other validator accepts it: '
+                           'a request such as (80, "localhost:8080") is refused and no ADD_ONION is sent' % uname)
+    run.ob('R14.7', init, init.node, 'port validators examined', True)
 
 
 def r14_5(run):
@@ -332,12 +367,15 @@ RULES = [
     ('R14.3', 'flag table: flags sent == requested options for all 64 option combinations; Port= / ClientAuth= item construction', lambda run: None),
     ('R14.4', "address = ServiceID + '.onion'; every remove() sends DEL_ONION for that address", r14_4),
     ('R14.6', 'one processed mapping per accepted port entry (path enumeration of one iteration of _validate_ports)', r14_6),
+    ('R14.7', 'client pairs recognised by type; sibling agreement of the port validators on the localhost exemption', r14_7),
     ('R14.5', 'options flow unchanged from create() to the service object and the helper', r14_5),
 ]
 
 from ..selftest import M  # noqa: E402
 F = 'txtorcon/onion.py'
 MUTANTS = [
+    M('pair-form-refuses-localhost', F, "                    if not _is_non_public_numeric_address(ip):\n                        log.msg(\n                            \"'{}' used as onion port doesn't appear to be a \"\n                            \"local, numeric address\".format(ip)\n                        )", "                    if not _is_non_public_numeric_address(ip):\n                        raise ValueError('not local')", ['R14.7']),
+    M('client-pair-by-unpacking', F, "            if isinstance(client, tuple):\n                client_name, keyblob = client\n                self._clients[client_name] = keyblob\n            else:\n                self._clients[client] = None", "            try:\n                client_name, keyblob = client\n            except ValueError:\n                client_name, keyblob = client, None\n            self._clients[client_name] = keyblob", ['R14.7']),
     M('unix-pair-dropped', F, "                if local.startswith('unix:/'):\n                    pass\n                else:", "                if local.startswith('unix:/'):\n                    continue\n                else:", ['R14.6']),
     M('second-command', F, "    raw_res = yield config.tor_protocol.queue_command(cmd)\n", "    raw_res = yield config.tor_protocol.queue_command(cmd)\n    if onion._detach:\n        raw_res = yield config.tor_protocol.queue_command(cmd)\n", ['R14.1']),
     M('crlf-check-after', F, "    if '\\r' in keystring or '\\n' in keystring:\n        raise ValueError(\n            \"No newline or return characters allowed in key blobs\"\n        )\n", "", ['R14.1']),
